@@ -343,6 +343,20 @@ func oracle(kind int, c []byte) []viol {
 		}
 	case kBits:
 		r := runBits(c)
+		// DER: unused bits are zero, at most 7, and none in an empty string
+		padOK := func(codec string, v bitsv) {
+			pad := 8*len(v.d) - v.n
+			if pad < 0 || pad > 7 || len(v.d) == 0 && pad != 0 || len(v.d) > 0 && v.d[len(v.d)-1]&byte(1<<uint(pad)-1) != 0 {
+				vs = append(vs, viol{"bitstring-padding-bits-" + codec,
+					fmt.Sprintf("%s accepted BIT STRING %x: %d unused bits that are not all zero / out of range", codec, c, pad)})
+			}
+		}
+		if r.a.ok {
+			padOK("asn1", r.a)
+		}
+		if r.c.ok {
+			padOK("cryptobyte", r.c)
+		}
 		if r.a.ok {
 			got, ok := marshalContent(easn1.BitString{Bytes: r.a.d, BitLength: r.a.n})
 			bad("asn1", "bitstring", got, ok, c)
@@ -453,7 +467,7 @@ func obs(kind int, h uint64, c []byte) uint64 {
 	panic("obs kind")
 }
 
-var alphabets = [][]byte{nil, {0, 1, 127, 128, 129, 255}, {0, 1, 2, 39, 40, 79, 80, 127, 128, 129, 130, 255}}
+var alphabets = [][]byte{nil, {0, 1, 127, 128, 129, 130, 131, 132, 255}, {0, 1, 2, 39, 40, 79, 80, 127, 128, 129, 130, 255}}
 
 func init() {
 	a := make([]byte, 256)
@@ -768,53 +782,57 @@ func genTimeString(c *vh.Ctx) []byte {
 }
 
 func gen(c *vh.Ctx) {
-	// ---- exhaustive (rolling checksum): sharded by first byte so that the model side runs in parallel
-	for _, kind := range []int{kInt, kBool, kBits, kOID} {
-		depth := 1 // first byte + 1 more: every content of length <= 2
+	// ---- exhaustive (rolling checksum): one xcase per (kind, first byte); the kinds are interleaved so that
+	// the shards the driver cuts the stream into cost about the same on the model side
+	depthOf := func(kind int) int {
 		if c.Thorough && kind != kBool {
-			depth = 2 // every content of length <= 3
+			return 2 // first byte + 2 more: every content of length <= 3
 		}
-		xcase(c, kind, 0, nil, 0)
-		for b := 0; b < 256; b++ {
-			xcase(c, kind, 0, []byte{byte(b)}, depth)
-		}
+		return 1 // every content of length <= 2
 	}
-	if c.Thorough {
-		c.Exhaustive("every INTEGER, BIT STRING and OID content of length <= 3 and every BOOLEAN content of length <= 2 (all 256 byte values), each through every reader of both codecs")
-	} else {
-		c.Exhaustive("every INTEGER, BOOLEAN, BIT STRING and OID content of length <= 2 (all 256 byte values), each through every reader of both codecs")
-	}
-	// OID bodies one or two bytes longer over the boundary alphabet {00 01 02 27 28 4f 50 7f 80 81 82 ff}
 	oidDepth := 3
 	if c.Thorough {
 		oidDepth = 4
 	}
-	for _, b := range alphabets[2] {
-		xcase(c, kOID, 2, []byte{b}, oidDepth)
+	hi := []byte{0x1f, 0xbf, 0x30, 0x02}
+	cbTags := []byte{0x30, 0x02, 0x1f, 0xa0}
+	if c.Thorough {
+		cbTags = []byte{0x02, 0x30, 0x1f, 0x3f, 0xa0, 0x80, 0xff, 0x05, 0x00, 0x1e}
+	}
+	for _, kind := range []int{kInt, kBool, kBits, kOID} {
+		xcase(c, kind, 0, nil, 0)
+	}
+	for b := 0; b < 256; b++ {
+		for _, kind := range []int{kInt, kBool, kBits, kOID} {
+			xcase(c, kind, 0, []byte{byte(b)}, depthOf(kind))
+		}
+		// headers: identifier octet, then length octets (and high-tag continuation octets) from {00 01 7f 80 81 82 83 84 ff}
+		if c.Thorough {
+			xcase(c, kHdrA, 1, []byte{byte(b)}, 5)
+		} else {
+			xcase(c, kHdrA, 1, []byte{byte(b)}, 2)
+		}
+		if b%22 == 0 && b/22 < len(alphabets[2]) {
+			// OID bodies one or two bytes longer over the boundary alphabet {00 01 02 27 28 4f 50 7f 80 81 82 ff}
+			xcase(c, kOID, 2, []byte{alphabets[2][b/22]}, oidDepth)
+		}
+		if !c.Thorough && b%22 == 11 && b/22 < len(hi) {
+			xcase(c, kHdrA, 1, []byte{hi[b/22]}, 5)
+		}
+		if b%26 == 5 && b/26 < len(cbTags) {
+			xcase(c, kHdrC, 1, []byte{cbTags[b/26]}, 5)
+		}
+	}
+	if c.Thorough {
+		c.Exhaustive("every INTEGER, BIT STRING and OID content of length <= 3 and every BOOLEAN content of length <= 2 (all 256 byte values), each through every reader of both codecs")
+		c.Exhaustive("encoding/asn1 parseTagAndLength: every header of <= 6 bytes with an arbitrary identifier octet and the other octets from {00,01,7f,80,81,82,83,84,ff}")
+	} else {
+		c.Exhaustive("every INTEGER, BOOLEAN, BIT STRING and OID content of length <= 2 (all 256 byte values), each through every reader of both codecs")
+		// the identifier octet interacts with what follows only in the high-tag form (low five bits set)
+		c.Exhaustive("encoding/asn1 parseTagAndLength: every header of <= 3 bytes with an arbitrary identifier octet, and of <= 6 bytes for the identifier octets 1f bf 30 02; other octets from {00,01,7f,80,81,82,83,84,ff}")
 	}
 	c.Exhaustive(fmt.Sprintf("every OID body of length <= %d over the 12-value boundary alphabet", oidDepth+1))
-	// headers: identifier octet, then length octets (and high-tag continuation octets) from {00 01 7f 80 81 ff}
-	hi := []byte{0x1f, 0x3f, 0x5f, 0x7f, 0x9f, 0xbf, 0xdf, 0xff, 0x02, 0x30, 0xa0, 0x80}
-	if c.Thorough {
-		for t := 0; t < 256; t++ {
-			xcase(c, kHdrA, 1, []byte{byte(t)}, 5)
-		}
-		c.Exhaustive("encoding/asn1 parseTagAndLength: every header of <= 6 bytes with an arbitrary identifier octet and the other octets from {00,01,7f,80,81,ff}")
-	} else {
-		// the identifier octet interacts with what follows only in the high-tag form (low five bits set):
-		// all 256 identifier octets with <= 2 following octets, the 8 high-tag octets and 4 low-tag ones with <= 5
-		for t := 0; t < 256; t++ {
-			xcase(c, kHdrA, 1, []byte{byte(t)}, 2)
-		}
-		for _, t := range hi {
-			xcase(c, kHdrA, 1, []byte{t}, 5)
-		}
-		c.Exhaustive("encoding/asn1 parseTagAndLength: every header of <= 3 bytes with an arbitrary identifier octet, and of <= 6 bytes for the 8 high-tag identifier octets and 02 30 a0 80; other octets from {00,01,7f,80,81,ff}")
-	}
-	for _, t := range []byte{0x02, 0x30, 0x1f, 0x3f, 0xa0, 0x80, 0xff, 0x05, 0x00, 0x1e} {
-		xcase(c, kHdrC, 1, []byte{t}, 5)
-	}
-	c.Exhaustive("cryptobyte readASN1: every header of <= 6 bytes for 10 identifier octets, other octets from {00,01,7f,80,81,ff}, followed by 300 content bytes")
+	c.Exhaustive(fmt.Sprintf("cryptobyte readASN1: every header of <= 6 bytes for %d identifier octets", len(cbTags)) + ", other octets from {00,01,7f,80,81,82,83,84,ff}, followed by 300 content bytes")
 
 	// ---- single cases
 	for _, kind := range []int{kInt, kBool, kBits, kOID, kHdrA, kHdrC, kTime} {
@@ -830,7 +848,7 @@ func gen(c *vh.Ctx) {
 			}
 		}
 	}
-	nr := 1500
+	nr := 900
 	if c.Thorough {
 		nr = 30000
 	}
